@@ -10,7 +10,7 @@ import jax.numpy as jnp
 from .. import symjax as sj, refsem as rs, corpus, gfi, solve
 
 FUNCTIONS = ["chain.run_chain (single- and multi-chain path)", "State.eval_jaxpr_state (scan case)", "state", "save", "modular_vmap", "MCMCResult"]
-BOUNDS = {"n_steps": "<= 4 (5 thorough)", "grid": "every (burn_in, thin) with a non-empty result", "n_chains": "1 and 2",
+BOUNDS = {"n_steps": "<= 4 (5 thorough)", "grid": "every (burn_in, thin) with a non-empty result", "n_chains": "1 and 2 (two chains also with burn-in and thinning: (n, burn, thin) = (4,1,2), (4,0,3), (3,1,1))",
           "kernels": "mh, mala, a composite kernel that applies two kernels and saves two diagnostics, a sweep kernel whose diagnostics are saved inside an inner scan", "model": "two_normals / nested"}
 ASSUMPTIONS = ["'same key' = the same outcome variables: sites are identified by (scan iteration, order)"]
 EXPLANATION = "chain traced for the grid and for the un-thinned run on shared outcome variables; slices compared leaf by leaf; un-thinned run compared with the hand-iterated kernel; chain lanes compared with the single chain"
@@ -46,7 +46,7 @@ def groups(tier, seed):
     for k in ("mh", "mala", "composite"):
         gs.append(f"slice:{k}:{n if k == 'mh' else 3}")
         gs.append(f"iterate:{k}:3")
-    gs += ["chains:mh:3", "chains:mala:2", "slice:sweep:3", "iterate:sweep:2"]
+    gs += ["chains:mh:3", "chains:mala:2", "slice:sweep:3", "iterate:sweep:2", "chains:mh:4:1:2", "chains:mh:4:0:3", "chains:mh:3:1:1"]
     return gs
 
 
@@ -66,8 +66,10 @@ def occurrence_scripted(store, prefix="q"):
 def run_group(g, gid):
     from genjax import const, state as gstate
     from genjax.inference import chain
-    kind, kname, n = gid.split(":")
+    kind, kname, n, *bt = gid.split(":")
     n = int(n)
+    burn, thin = (int(bt[0]), int(bt[1])) if bt else (0, 1)
+    kept = len(range(burn, n, thin))
     case = corpus.get("two_normals")
     gf = rs.to_genjax(case.prog)
     tr0 = gfi.example_trace(gf, case.args, case.kwargs)
@@ -125,13 +127,13 @@ def run_group(g, gid):
         return
     if kind == "chains":
         C = 2
-        multi = g.try_trace(f"chain({kname}) n_chains=2 traces", run(0, 1, C), tr0)
+        multi = g.try_trace(f"chain({kname}) n_chains=2 burn_in={burn} thin={thin} traces", run(burn, thin, C), tr0)
         if multi is None:
             return
         M = multi.outs
         leaves = jax.tree_util.tree_leaves(M.traces, is_leaf=rs._isarr)
         g.ok("n_chains=2: every trace leaf and accepts carry a leading chain axis",
-             all(sj.obj(l).shape[:2] == (C, n) for l in leaves) and sj.obj(M.accepts).shape == (C, n),
+             all(sj.obj(l).shape[:2] == (C, kept) for l in leaves) and sj.obj(M.accepts).shape == (C, kept),
              str([sj.obj(l).shape for l in leaves][:4]))
         sites = multi.sites
         used = []
@@ -144,7 +146,7 @@ def run_group(g, gid):
                     order[0] += 1
                 o = sj.obj(s.outs[k])
                 return sj.obj(o[c]) if o.ndim > len(aval.shape) else o
-            single = g.try_trace(f"single chain traces (lane {c})", run(0, 1, 1), tr0, sym_in=multi.flat_in, scripted=scripted)
+            single = g.try_trace(f"single chain traces (lane {c})", run(burn, thin, 1), tr0, sym_in=multi.flat_in, scripted=scripted)
             if single is None:
                 return
             S = single.outs
@@ -157,4 +159,5 @@ def run_group(g, gid):
              str([(s.name, sj.obj(s.outs[0]).shape) for s in sites][:4]))
         acc = [sj.s_real(a) for a in sj.terms(M.accepts)]
         g.holds("n_chains=2: acceptance_rate == mean over chains and steps", sj.unlog(sj.obj(M.acceptance_rate).item()) == sum(acc) / len(acc))
-        g.ok("n_chains=2: n_steps per chain", M.n_steps.value == n and M.n_chains.value == C)
+        g.ok("n_chains=2: n_steps counts the retained states per chain", M.n_steps.value == kept and M.n_chains.value == C,
+             f"n_steps={M.n_steps.value} retained={kept}")
